@@ -12,6 +12,8 @@ type Harness struct {
 	// Replay returns the item named in a violation file.
 	Item func(name string) *explore.Item
 	Rule string
+	// Bounds are the deviation bounds for the quick and thorough tiers (0 = engine default 2/3).
+	Bounds [2]int
 }
 
 var All []*Harness
